@@ -240,6 +240,25 @@ def superseded_history(rng, kind):
     return ops
 
 
+def long_history(rng, kind):
+    """Hundreds of calls at a constant configuration with small chunks: whatever accumulates, wraps or depends
+    on a slowly drifting phase / on one residue of a counter (an FFT resampler's parked frames run through every
+    residue of the block; an asynchronous resampler's fractional position through its whole cycle)."""
+    over = {"ch": 1}
+    if kind in ASYNC:
+        over["r"] = rj(rng.choice([Fraction(160, 147), Fraction(147, 160), Fraction(3, 7), Fraction(101, 100),
+                                   Fraction(99, 100), Fraction(7, 5), Fraction(2, 3), Fraction(13, 3), Fraction(1, 3)]))
+        over["maxrel"] = rj(Fraction(2))
+        over["chunk"] = rng.choice([1, 2, 3, 5, 8, 13, 32, 50])
+        if kind.startswith("Sinc"):
+            over.update({"L": rng.choice([8, 16, 32]), "F": rng.choice([2, 16, 100, 128])})
+    else:
+        a, b = rng.choice([(44100, 48000), (48000, 44100), (147, 160), (3, 2), (2, 3), (5, 7), (97, 101), (160, 147)])
+        over.update({"fs_in": a, "fs_out": b, "chunk": rng.choice([1, 7, 50, 100, 146, 148, 200, 333]),
+                     "sub": rng.choice([1, 1, 2, 3])})
+    return valid_history(rng, kind, rng.choice([200, 400, 700]), allow=(), **over)
+
+
 def huge_history(rng, kind):
     """chunk sizes beyond 2^16 (size computations that truncate, wrap or lose precision only there);
     few calls, so that the stream stays below 2^20 frames"""
